@@ -56,6 +56,55 @@ def opsKernel (op : String) : Option (Rd String) :=
   | "seg.subseg_eval" => some do
       let s : PathSeg K ← seg; let t0 : K ← num; let t1 : K ← num; let u : K ← num
       return s!"{ePt ((s.subsegment ⟨t0, t1⟩).eval u)} {ePt (s.eval (t0 + u * (t1 - t0)))}"
+  -- rect / insets (C20, C11)
+  | "rect.bin" => some do
+      let a : Rect K ← rect; let b : Rect K ← rect
+      return s!"{eRect (a.union b)} {eRect (a.intersect b)} {eBool (a.overlaps b)} {eBool (b.overlaps a)} {eBool (a.contains_rect b)} {eBool (b.contains_rect a)} {eInsets (a - b)} {eRect (b + (a - b))}"
+  | "rect.un" => some do
+      let a : Rect K ← rect
+      return s!"{eRect a.abs} {eRect a.expand} {eRect a.trunc} {eRect a.round} {eRect a.ceil} {eRect a.floor} {e a.area} {e a.width} {e a.height} {ePt a.origin} {eSize a.size} {ePt a.center} {eBool a.is_zero_area} {e (a.perimeter (0:K))} {eRect a.bounding_box} {e a.min_x} {e a.max_x} {e a.min_y} {e a.max_y}"
+  | "rect.pt" => some do
+      let a : Rect K ← rect; let p : Point K ← pt
+      return s!"{eBool (a.contains p)} {eRect (a.union_pt p)} {a.winding p} {eRect (Rect.from_points a.origin p)}"
+  | "rect.insets" => some do
+      let a : Rect K ← rect; let i : Insets K ← insets
+      return s!"{eRect (a + i)} {eRect ((a + i) - i)} {eRect (i + a)} {eRect (i - a)} {eRect (a - i)} {eInsets (-i)} {eSize i.size} {e i.x_value} {e i.y_value}"
+  | "rect.misc" => some do
+      let a : Rect K ← rect; let w : K ← num; let h : K ← num; let v : Vec2 K ← vec
+      return s!"{eRect (a.inflate w h)} {eRect (a.scale_from_origin w)} {eRect (a + v)} {eRect (a - v)}"
+  -- affine (C12)
+  | "aff.bin" => some do
+      let a : Affine K ← affine; let b : Affine K ← affine; let p : Point K ← pt
+      return s!"{eAffine (a * b)} {ePt (a * p)} {ePt ((a * b) * p)} {ePt (a * (b * p))} {e a.determinant} {e (a * b).determinant}"
+  | "aff.inv" => some do
+      let a : Affine K ← affine
+      return s!"{eAffine a.inverse} {eAffine (a * a.inverse)} {eAffine (a.inverse * a)}"
+  | "aff.family" => some do
+      -- every constructor / pre_ / then_ member that needs no angle
+      let a : Affine K ← affine; let s : K ← num; let sx : K ← num; let sy : K ← num; let v : Vec2 K ← vec; let c : Point K ← pt
+      return s!"{eAffine (Affine.scale s)} {eAffine (Affine.scale_non_uniform sx sy)} {eAffine (Affine.translate v)} {eAffine (Affine.skew sx sy)} {eAffine (Affine.scale_about s c)} {eAffine (a.pre_scale s)} {eAffine (a.pre_scale_non_uniform sx sy)} {eAffine (a.pre_translate v)} {eAffine (a.then_scale s)} {eAffine (a.then_scale_non_uniform sx sy)} {eAffine (a.then_translate v)} {eAffine (a.then_scale_about s c)} {eVec a.translation} {eAffine (a.with_translation v)}"
+  | "aff.rot" => some do
+      let a : Affine K ← affine; let th : K ← num; let c : Point K ← pt
+      return s!"{eAffine (Affine.rotate th)} {eAffine (Affine.rotate_about th c)} {eAffine (a.pre_rotate th)} {eAffine (a.pre_rotate_about th c)} {eAffine (a.then_rotate th)} {eAffine (a.then_rotate_about th c)}"
+  | "aff.reflect" => some do
+      let p : Point K ← pt; let d : Vec2 K ← vec
+      return eAffine (Affine.reflect p d)
+  | "aff.rect" => some do
+      let a : Affine K ← affine; let r : Rect K ← rect
+      return s!"{eRect (a.transform_rect_bbox r)} {eAffine (Affine.map_unit_square r)}"
+  | "aff.seg" => some do
+      let a : Affine K ← affine; let s : PathSeg K ← seg; let t : K ← num
+      return s!"{eSeg (a * s)} {ePt ((a * s).eval t)} {ePt (a * (s.eval t))}"
+  | "aff.els" => some do
+      let a : Affine K ← affine; let p : List (PathEl K) ← els
+      return eEls (p.map fun el => a * el)
+  -- translate-scale (C12)
+  | "ts.bin" => some do
+      let a : TranslateScale K ← tscale; let b : TranslateScale K ← tscale; let p : Point K ← pt
+      return s!"{eTs (a * b)} {ePt (a * p)} {eAffine a.to_affine} {eTs a.inverse} {ePt (a.to_affine * p)} {eTs (TranslateScale.from_scale_about a.scale p)} {eTs (a.add_Vec2 b.translation)} {eTs (a.sub_Vec2 b.translation)}"
+  | "ts.shapes" => some do
+      let a : TranslateScale K ← tscale; let l : Line K ← line; let r : Rect K ← rect; let q : QuadBez K ← quad; let c : CubicBez K ← cubic
+      return s!"{eLine (a.mul_Line l)} {eRect (a.mul_Rect r)} {eQuad (a.mul_QuadBez q)} {eCubic (a.mul_CubicBez c)}"
   | _ => none
 
 end Kurbo.Driver
